@@ -186,6 +186,17 @@ CLAIMED = {
         note="level proof for the side-effect / history part only; determinism and the provenance round trip are correspondence-style observations on the real entry points.  Trusted: Coq "
              "kernel + Reals axioms, translate/options.py, the hand model of numpy's in-place semantics.",
         technique="Coq proof on regenerated option pre-processing + end-to-end round trips through the real command-line entry points", design="6/C14", partial=True),
+    "C11": dict(
+        text="Coq theorems (exact rationals, computable hand model on top of C20's model of find_intersections / area / clockwise; the corresponding source statements are checked for exact "
+             "form on every run): for EVERY input polygon the signed area changes sign under reversal, the stored wall is not clockwise, has exactly the input vertices, and the closed wall "
+             "starts and ends with the same vertex; penalty_mask is 0 iff both y-faces are inside, 1 iff both are outside, otherwise the fraction of the chord from the outside face to the "
+             "reported crossing, which (C20 soundness) lies on the chord and on a wall edge, so the fraction is in [0,1] and the two ends' fractions add to 1.  Correspondence: the model "
+             "evaluated by vm_compute on the walls and cells of real grids and of stub regions (700+ cells).  Oracles: every cell of every corpus grid against an independent ray-casting "
+             "evaluation; the real calcPenaltyMask / wall normalisation on stub regions with spiky, U-shaped (lines from the reference point cross the wall twice) and off-axis walls in both "
+             "orientations; target points on the wall and on their flux surface, cell centres inside / guard cells outside (non-orthogonal), the wall written to the file.",
+        note="Trusted: Coq kernel (no axioms); the even-odd parity test is taken as the definition of inside (Jordan curve theorem not proved) under the contract that the reference point is "
+             "inside the wall; target points are compared at a tolerance second order in the FineContour spacing (2.6e-6 m at Nfine = 100).",
+        technique="Coq proofs on a computable exact-rational hand model + vm_compute correspondence + independent ray-casting oracle on grids and stub regions", design="6/C11"),
 }
 
 PENDING = ["C01", "C03", "C04", "C05", "C06", "C07", "C08", "C09", "C10", "C11", "C12", "C13", "C14", "C15", "C16", "C17", "C18", "C19", "C20"]
